@@ -234,11 +234,12 @@ inductive Item
   | sub (k : Kind) (ports : List Nat)
 deriving DecidableEq, Repr
 
-/-- items are numbered by position: item `i` of the outer combinator is filed under number `1000 + i`
-    when it is an inner combinator (its `name`), under the port number otherwise -/
-def itemId (i : Nat) : Item → Nat
-  | .port p => p
-  | .sub _ _ => 1000 + i
+/-- the outer combinator files every item — a port or an inner combinator (its `name`) — under its position
+    in `items`, so the item numbers are `0 … items.length - 1` -/
+def findPort (p : Nat) : List Item → Nat → Option Nat
+  | [], _ => none
+  | .port q :: r, i => if q = p then some i else findPort p r (i + 1)
+  | .sub _ _ :: r, i => findPort p r (i + 1)
 
 /-- position of the inner combinator responsible for port `p` (`combinators_map`) -/
 def findSub (p : Nat) : List Item → Nat → Option (Nat × Kind × List Nat)
@@ -273,20 +274,25 @@ structure NRes where
   err : Option Err := none
 deriving Repr
 
+/-- `c.combine(port, token)` of a flat inner combinator of kind `k` over `ports` -/
+def innerAdd (k : Kind) (ports : List Nat) (tv : TV) (p : Nat) (t : Tok) : Res :=
+  match k with
+  | .dot => dotAdd ports.length tv p (Elem.ofTok p t)
+  | .cart d => cartAdd d ports tv p (Elem.ofTok p t)
+
 /-- `DotProductCombinator.combine(port, token)` of the outer combinator -/
 def nestedAdd (items : List Item) (s : NSt) (p : Nat) (t : Tok) : NRes :=
   match findSub p items 0 with
   | some (i, k, ports) =>
-      let r := match k with
-        | .dot => dotAdd ports.length (innerGet s i) p (Elem.ofTok p t)
-        | .cart d => cartAdd d ports (innerGet s i) p (Elem.ofTok p t)
+      let r := innerAdd k ports (innerGet s i) p t
       let s1 := innerSet s i r.tv
       -- the inner generator is consumed lazily, but it does not read the outer state: feeding the
       -- schemas it yielded (before raising, if it raises) is the same sequence of outer operations
-      let r2 := feedSchemas items.length (1000 + i) r.out s1.outer []
+      let r2 := feedSchemas items.length i r.out s1.outer []
       ⟨{ s1 with outer := r2.tv }, r2.out, match r2.err with | some x => some x | none => r.err⟩
   | none =>
-      let r := dotAdd items.length s.outer p (Elem.ofTok p t)
+      -- a port that is no item at all would raise `WorkflowExecutionException` in Python; the drivers never send one
+      let r := dotAdd items.length s.outer ((findPort p items 0).getD items.length) (Elem.ofTok p t)
       ⟨{ s with outer := r.tv }, r.out, r.err⟩
 
 def runNestedAux (items : List Item) : List Ev → NSt → List Emit → NRes
